@@ -86,7 +86,7 @@ func (s *c25) Build(w *World) {
 	}
 	// what S does besides: more new requests, updates, cancels (each an event of its own)
 	s.sActs = []string{}
-	for _, a := range []string{"update", "cancel", "newreq"} {
+	for _, a := range []string{"update", "cancel", "newreq", "bcancel", "bcancel2"} {
 		if t.Chance(600) {
 			s.sActs = append(s.sActs, a)
 		}
@@ -189,6 +189,10 @@ func (s *c25) events(w *World) func() []*Event {
 					}()
 				case "cancel":
 					s.sReqs[len(s.sReqs)-1].Cancel()
+				case "bcancel", "bcancel2":
+					// the responder's operator cancels the stalled peer's response (possibly twice, or on top of the peer's own cancel)
+					id := s.sReqs[len(s.sReqs)-1].ID
+					go func() { _ = s.b.GS.Cancel(context.Background(), id) }()
 				case "newreq":
 					d := s.oDags[0]
 					r := s.s.NewReq("s-late", s.b, d.Root, AllSelector(8))
@@ -298,7 +302,8 @@ func (s *c25) Final(w *World) *Violation {
 				site = blockedSite("responsemanager.(*ResponseManager).run")
 			}
 			sig := "other-peer-starved"
-			if strings.Contains(site, "AllocateAndBuildMessage") || strings.Contains(site, "Transaction") {
+			if strings.Contains(site, ">") {
+				// the loop is inside a message handler, not waiting for the next message
 				sig += ":loop-blocked:" + site
 				if s.sHook == "ext" {
 					// the input class of the recorded finding: the loop reserves memory for
